@@ -294,7 +294,7 @@ def run_check(modname, tier, seed):
                 done_jobs += 1
                 lv_stats.merge(r['stats'])
                 structures += r['structures']
-                truncated += r['truncated']
+                truncated += r['truncated'] + r['stats'].get('capped', 0)
                 funcs.update(r['funcs'])
                 unknown_labels.extend(r['unknown_labels'])
                 for s in r['samples']:
